@@ -77,3 +77,42 @@ def read_docstring(prop="C03"):
     c.ensures("consumes_exactly_the_maximal_run_of_doc_lines", post)
     c.allowed_raises = {"StopIteration"}
     return c
+
+
+
+def converter_reset_obligations(prop="C03"):
+    """FortranBase.markdown: the Markdown converter is shared by all entities of a project (Project.markdown passes one `md` to every item), and python-markdown
+    keeps per-document state between convert() calls (footnotes, reference definitions, abbreviations, the HTML stash).  Every comment is a document of its own:
+    the conversion that produces `self.doc` must be made on a reset converter - `md.reset().convert(...)`, or a `md.reset()` statement before it in the same function."""
+    import ast
+    from harness.core import OR, PROVED, REFUTED, UNKNOWN
+    from harness import loader
+    oid = f"{prop}.S.FortranBase.markdown.converter_reset_for_every_comment"
+    try:
+        fn = loader.find_def("ford.sourceform", "FortranBase.markdown")
+    except loader.TargetMissing as e:
+        return [OR(id=oid, status=UNKNOWN, kind="S", target="ford.sourceform.FortranBase.markdown", detail=str(e))]
+    sites = [n for n in ast.walk(fn) if isinstance(n, ast.Assign) and any(ast.unparse(t) == "self.doc" for t in n.targets)]
+    if len(sites) != 1:
+        return [OR(id=oid, status=UNKNOWN, kind="S", target="ford.sourceform.FortranBase.markdown", detail=f"expected one assignment to self.doc, found {len(sites)}")]
+    st = sites[0]
+    conv = [c for c in ast.walk(st.value) if isinstance(c, ast.Call) and isinstance(c.func, ast.Attribute) and c.func.attr == "convert"]
+    ok = False
+    if len(conv) == 1:
+        recv = conv[0].func.value
+        ok = isinstance(recv, ast.Call) and isinstance(recv.func, ast.Attribute) and recv.func.attr == "reset" and not recv.args
+        if not ok and isinstance(recv, ast.Name):
+            # a reset statement on the same converter earlier in the function, outside any branch
+            for prev in fn.body:
+                if prev.lineno >= st.lineno:
+                    break
+                if isinstance(prev, ast.Expr) and isinstance(prev.value, ast.Call) and ast.unparse(prev.value) == f"{recv.id}.reset()":
+                    ok = True
+    r = OR(id=oid, status=PROVED if ok else REFUTED, kind="S", role="pre", backend="ast", target="ford.sourceform.FortranBase.markdown",
+           desc=f"`{ast.unparse(st)[:100]}`: each entity's comment is converted by a reset converter (no footnote / link definition / stash state of a neighbour)")
+    if not ok:
+        from bounded import c03
+        r.witness = {"assignment": ast.unparse(st)}
+        r.detail = "the shared converter is not reset before this entity's comment is converted"
+        r.replay = c03.search_project_render()
+    return [r]
